@@ -21,7 +21,7 @@ LEVEL = "exploration"
 NEEDS_DEPS = True
 SHARDS = {"quick": 16, "thorough": 16}
 FLOOR = {"quick": 100, "thorough": 2000}
-REQUIRED_COUNTERS = ["operations_expected", "methods_called", "requests_captured", "dedup_contract_evals",
+REQUIRED_COUNTERS = ["docs_multi_tag_name_collision", "operations_expected", "methods_called", "requests_captured", "dedup_contract_evals",
                      "docs_yaml", "docs_with_opid_collision", "docs_multi_tag", "strategy_name_checks"]
 RULE = ("path/method sets x tag assignments (none, one, several, case/punctuation variants) x operationId shapes (absent, colliding "
         "after sanitisation, FastAPI-suffixed) x 3 naming strategies x JSON/YAML renderings (incl. unquoted integer status keys); "
@@ -169,6 +169,20 @@ def mk_doc(ctx: Ctx, allow: set[str]) -> specgen.Doc:
                         if e["path"] == path and e["method"] == meth.upper():
                             e["tags"] = tv
         d.features.add("tag_spelling_variants")
+    if "multi_tag" in allow and len(d.ops) >= 2 and rng.random() < 0.5:
+        # operation A carries [X, Y]; operation B has Y (or a spelling variant) as FIRST tag and an operationId that
+        # derives to the same method name: both live in client Y and must get distinct names there
+        a, b = rng.sample(d.ops, 2)
+        if a.get("operationId"):
+            x, y = rng.sample(["pets", "store", "users", "billing"], 2)
+            yb = rng.choice([y, y.title(), y.upper()])
+            recased = (re.sub(r"([a-z0-9])([A-Z])", r"\1_\2", a["operationId"]).lower() if a["operationId"] != a["operationId"].lower()
+                       else "".join(w.title() if i else w for i, w in enumerate(a["operationId"].split("_"))))
+            for e, tags, oid in ((a, [x, y], a["operationId"]), (b, [yb], rng.choice([a["operationId"], recased]))):
+                e["tags"], e["operationId"] = tags, oid
+                node = d.doc["paths"][e["path"]][e["method"].lower()]
+                node["tags"], node["operationId"] = tags, oid
+            d.features.update({"multi_tag", "opid_collision", "multi_tag_name_collision"})
     return d
 
 
@@ -203,6 +217,8 @@ def run_batch(ctx: Ctx, items: list[dict]) -> None:
             rec.count("docs_with_opid_collision")
         if "multi_tag" in d.features:
             rec.count("docs_multi_tag")
+        if "multi_tag_name_collision" in d.features:
+            rec.count("docs_multi_tag_name_collision")
         skipped = [w for w in res.warnings if "Skipping operation" in w]
         if skipped:
             rec.violation("generation:operation_silently_skipped", feats, case, skipped[0])
